@@ -1312,6 +1312,10 @@ class RecurrencePlot(Cached):
         :return: the frequency distribution of white vertical line lengths
             :math:`P(w-1)`.
         """
+        if self.sparse_rqa:
+            raise NotImplementedError(
+                "White vertical lines are not available in sequential RQA "
+                "mode.")
         R = self.recurrence_matrix()
         n_time = self.N
         white_vertline = np.zeros(n_time, dtype=NODE)
